@@ -63,3 +63,14 @@ def register_builder_shapes(reg):
     reg.shape('ASTBuilder', {'_stack': 'Seq[RefN[Documentable]]', 'current': 'RefN[Documentable]',
                              'currentMod': 'RefN[Module]', 'currentAttr': 'RefN[Documentable]',
                              'system': 'Ref[System]'})
+
+
+def register_reporting_shapes(reg):
+    reg.shape('StrNode', {'value': 'Str', 'lineno': 'Int'})          # ast.Constant holding a docstring
+    reg.shape('ParseError', {'_linenum': 'Opt[Int]', '_descr': 'Str', '_fatal': 'Bool'})
+    reg.shape('Field', {'source': 'Ref[Documentable]', 'lineno': 'Int'})
+    reg.shapes['System'].fields.update({'violations': 'Int', 'once_msgs': 'Set[Tuple[Str,Str]]', 'needsnl': 'Bool',
+                                        'parse_errors': 'DefaultMap[Str,Set[Str]]'})
+    reg.shapes['Options'].fields.update({'verbosity': 'Int', 'warnings_as_errors': 'Bool', 'pdb': 'Bool',
+                                         'sourcepath': 'Seq[Obj[Path]]'})
+    reg.shapes['Documentable'].fields.update({'docstring': 'Opt[Str]', 'source_path': 'Opt[Obj[Path]]'})
